@@ -16,6 +16,23 @@ ORG while a PHASE offset is in force: the implemented reading (argument = execut
 Structures nest two levels deep (fields of nested structures / union members inside a structure are numbered
 relative to the outermost structure: AddrBook.FieldValue).  No verdict on: addresses >= 2^30 (TLC integers).
 Independent seeded change caught after strengthening: seeded/C10 (ORG no-op test through the load address).
+
+Extension "structinst" (checks/ext_structinst.py, last phase of main(); spec modules "StructInst", "StructInst_MC",
+"StructInst_Gen", "StructInst_Trace"; details, bounds and mutations in the docstring of checks/ext_structinst.py):
+structure definition details and structure INSTANTIATION.  spec/StructInst.tla EXTENDS AddrBook with the open-definition
+frames (composed names, EXTNAMES / NOEXTNAMES, DOTS / NODOTS / DOTTEDSTRUCTS, elements with offsets, TotLen), the structure
+table and Step(st, statement) = symbol definitions in order + errors + reservation for STRUCT / UNION / ENDSTRUCT [label]
+[length name] / fields / a structure name used as an instruction (plain, arrays, in the ordinary segment - PHASE: execution
+address -, inside a STRUCT body, inside a UNION) / the refused statements; next to it the manual's promise on the syntax
+tree of a definition (DSize, DSyms, InstancePromise: every instance member = label + offset, exactly LEN units reserved,
+nothing else changes).  (M) StructInst_MC: 12 invariants on bounded programs (quick 3 configurations, 5.9 k + 26 k + 9 k
+states; thorough up to 410 k) + 2 configurations TLC must refute (named deviations AnonOffsetDropped,
+NoExtNamesKeepsOwnPrefix); (G) StructInst_Gen: simulated programs of 12..16 statements rendered for 8051 and 320C25,
+assembled with hooks, every sym_def / reserve / emit / diag / stmt record and the code file compared with the prediction;
+(V) StructInst_Trace: TLC judges every statement of the generated programs and of the 12 golden sources that use STRUCT /
+UNION against the promise.  Finding: known_findings/C10-structinst.json (member inside a nameless body loses that body's
+offset in every instance; proposed_fixes/C10-anon-member-offset.diff).  Mutations m1..m4 tried: see ext_structinst.py.
+./check C10 --selftest: nine corrupted observations are each rejected by TLC.
 """
 import os
 
@@ -156,6 +173,10 @@ def render(beh, dname, obs=None, cpu_stmt=True):
             put(obs["seg"], obs["load"], [199])
             lines.append("\t%s $ # %d" % (d["data"], mod))
             put(obs["seg"], obs["load"] + 1, [(obs["exec"] + 1) % mod])
+        else:
+            # observer inside a STRUCT / UNION body: one more field, whose value is the offset the body is at
+            lines.append("fobs\t%s 1" % d["res"])
+            table.append(("%s_fobs" % "_".join(n for n, _ in open_structs), obs["field"]))
         while open_structs:
             name, u = open_structs.pop()
             lines.append("%s\t%s" % (name, "endunion" if u else "endstruct"))
@@ -288,6 +309,8 @@ def main(tier):
             rep.violation("golden test %s: statement not explained by the address bookkeeping: %s"
                           % (names[v.fail_exec], v.detail[:400]), case={"test": names[v.fail_exec], "event": v.fail_event},
                           key={"test": names[v.fail_exec]})
+    from checks import ext_structinst       # phase "structinst": definition details and instantiation of structures
+    ext_structinst.run(rep, bld, tier)
     return rep.finish(rule="generated = TLC-simulated AddrBook_Gen behaviours (distinct by rendered source x 2 dialects; "
                            "non-trivial = at least 3 different statement kinds); traces = one execution per pass of each "
                            "golden program, one event per source statement", exhaustive=False)
@@ -295,5 +318,16 @@ def main(tier):
 
 def replay(path):
     import json
+    with open(os.path.join(path, "violation.json")) as f:
+        v = json.load(f)
+    if (v.get("key") or {}).get("phase") == "structinst":
+        from checks import ext_structinst
+        return ext_structinst.replay(path, v["case"])
     log(open(os.path.join(path, "violation.json")).read()[:3000])
     return 0
+
+
+def selftest(tier="quick"):
+    """binding demonstration of the structinst phase (the other phases show theirs through the seeded changes)"""
+    from checks import ext_structinst
+    return 0 if ext_structinst.selftest() else 1
